@@ -120,6 +120,12 @@ claimed = {
          "Wrap-around of address + size is modelled as the machine computes it."),
    design="5 (C11)", technique="deductive verification: WP-style VC generation over go/ssa + SMT (loop invariants and call-site obligations)"),
 
+
+ "C20": dict(
+   text=("Work-conservation steps of the trace-driven model: the NVIDIA driver takes a kernel off the undispatched list and a device off the free list exactly when the port accepted the dispatch message (both lists lose their head, order kept), "
+         "and a finished kernel returns the device named by the message, once, decrementing the unfinished count; the SM does the same for warps and sub-cores. Trace parsing, the GPU/sub-core levels and termination are not under contract."),
+   note=(TB + "akita ports/components and the logging library are external. Termination and exactly-once over whole runs need an argument over message interleavings that this technique does not mechanise."),
+   design="5 (C20)", technique="deductive verification: WP-style VC generation over go/ssa + SMT (pre/postconditions of the step functions)"),
 }
 reasons = {
  "C01": "subject is GPU machine code vs a host reference over the whole platform matrix; no contract on a Go function states it (its contract-reachable mechanisms are claimed under C03/C04/C06/C07/C08/C11/C13)",
